@@ -68,32 +68,39 @@ func filterImage(image bufimage.Image, options *imageFilterOptions) (bufimage.Im
 			}
 		}
 	}
-	if len(options.includeTypes) == 0 {
-		// An import file that is kept is kept with all of its non-excluded content, so all of that
-		// content must be walked as well, otherwise the files it needs are dropped from the image.
-		for changed := true; changed; {
-			changed = false
-			for _, file := range image.Files() {
-				if !file.IsImport() {
-					continue
+	// Known extensions can bring in further import files, and those are kept whole as well, so
+	// walking the kept import files and adding known extensions is repeated until no import
+	// file is added anymore.
+	for walkedImportFile := true; walkedImportFile; {
+		walkedImportFile = false
+		if len(options.includeTypes) == 0 {
+			// An import file that is kept is kept with all of its non-excluded content, so all of that
+			// content must be walked as well, otherwise the files it needs are dropped from the image.
+			for changed := true; changed; {
+				changed = false
+				for _, file := range image.Files() {
+					if !file.IsImport() {
+						continue
+					}
+					if _, ok := closure.imports[file.Path()]; !ok {
+						continue
+					}
+					fileDescriptorProto := file.FileDescriptorProto()
+					if mode := closure.elements[fileDescriptorProto]; mode == inclusionModeExplicit || mode == inclusionModeExcluded {
+						continue
+					}
+					if err := closure.addElement(fileDescriptorProto, "", false, imageIndex, options); err != nil {
+						return nil, err
+					}
+					changed = true
+					walkedImportFile = true
 				}
-				if _, ok := closure.imports[file.Path()]; !ok {
-					continue
-				}
-				fileDescriptorProto := file.FileDescriptorProto()
-				if mode := closure.elements[fileDescriptorProto]; mode == inclusionModeExplicit || mode == inclusionModeExcluded {
-					continue
-				}
-				if err := closure.addElement(fileDescriptorProto, "", false, imageIndex, options); err != nil {
-					return nil, err
-				}
-				changed = true
 			}
 		}
-	}
-	// After all types are added, add their known extensions
-	if err := closure.addExtensions(imageIndex, options); err != nil {
-		return nil, err
+		// After all types are added, add their known extensions
+		if err := closure.addExtensions(imageIndex, options); err != nil {
+			return nil, err
+		}
 	}
 
 	// Loop over image files in revserse DAG order. Imports that are no longer
